@@ -841,6 +841,11 @@ static SpellTable make_spelling(Choice& ch)
         {{'c', "f", "f"}, {'s', "==", "=="}, {'c', "=", "="}, {'t', "f", "f"}}};
     SpellTable t;
     for (size_t i = 0; i < 6; ++i) t.sp.push_back(menu[i][ch.below(4)]);
+    if (getenv("EMIT_NAMED_TERMS"))
+    {   // C09's programs: make sure terms with a display name different from their id (named regex terms, typed terms wrapping them) are frequent
+        t.sp[0] = menu[0][3 - ch.below(2)];      // typed(named regex) by default, plain named regex sometimes
+        if (ch.chance(1, 2)) t.sp[3] = menu[3][3];
+    }
     // two terminals must not share a spelling or a first letter with a regex spelling (keeps the reference tokeniser trivial)
     for (size_t i = 0; i < 6; ++i) for (size_t j = 0; j < i; ++j)
     {
@@ -940,7 +945,7 @@ static int emit_cases(const eng::Args& a)
         for (int k = 0; k < 3 && !keep.empty(); ++k) { gg::Input in = keep[rng.below(uint32_t(keep.size()))]; in.text.insert(in.text.begin() + rng.below(uint32_t(in.text.size() + 1)), "z!@"[rng.below(3)]); add(in); }
         for (int k = 0; k < 2 && !keep.empty(); ++k) { gg::Input in = keep[rng.below(uint32_t(keep.size()))]; if (rng.chance(1, 2)) in.skip_nl = false; else in.skip_ws = false; in.text += rng.chance(1, 2) ? "\n a" : " b"; keep.push_back(in); }
         // half of the cases: real term kinds. Inputs are re-rendered with the spellings; the reference re-tokenises the new text.
-        bool spelled = ch.chance(1, 2) && !getenv("EMIT_NO_SPELLING");
+        bool spelled = (ch.chance(1, 2) || getenv("EMIT_NAMED_TERMS")) && !getenv("EMIT_NO_SPELLING");
         SpellTable spell; if (spelled) spell = make_spelling(ch);
         auto tname = [&](int t) -> std::string { if (t == g.eof()) return "<eof>"; if (t == g.err()) return "<error_recovery_token>"; return spelled ? spell.sp[size_t(t)].name : g.tname(t); };
         if (spelled)
